@@ -50,7 +50,7 @@ fn env() -> Value {
     e.json()
 }
 
-fn gen_case(c: &mut Choices) -> Case {
+pub fn gen_case(c: &mut Choices) -> Case {
     // declared props: a random subset (>=2)
     let mut declared: Vec<&P> = vec![];
     for p in PROPS {
